@@ -15,6 +15,8 @@ import (
 	"strconv"
 	"strings"
 	"syscall"
+
+	"golang.org/x/sys/unix"
 	"time"
 
 	gnet "github.com/panjf2000/gnet/v2"
@@ -1298,6 +1300,9 @@ func runCase(w *tr.Writer, seed uint64, idx int, focus string) {
 		_ = ci.c.Wake(nil)
 		_ = ci.c.Close()
 		_ = ci.c.AsyncWrite([]byte("late"), nil)
+		if i == 0 && ci.closed && cfg.focus == "stale" {
+			staleHandleOps(rec, ci) // the recorded finding stale-handle-dup-and-setsockopt (C07 runs only)
+		}
 	}
 	finalOracles(rec, h, cfg, peers)
 	if h.third != nil {
@@ -1392,6 +1397,54 @@ func runCase(w *tr.Writer, seed uint64, idx int, focus string) {
 	}
 	w.Hist("mode-" + map[bool]string{true: "et", false: "lt"}[cfg.et] + "-" + cfg.proto + map[bool]string{true: "-reactor", false: "-reuseport"}[rec.reactor])
 	w.End()
+}
+
+// staleHandleOps: Dup and a socket-option setter on the handle of a connection the framework has closed.
+// Both are documented as callable from any goroutine at any time; neither may touch the old descriptor NUMBER,
+// which by now may be anybody's (C07).  The number is given to a socket of the harness first, so that a
+// setsockopt on it is visible as a changed option of a stranger's socket.
+func staleHandleOps(rec *recorder, ci *connInfo) {
+	fd := ci.c.Fd()
+	if fd < 3 {
+		return
+	}
+	rec.mu.Lock()
+	_, owned := rec.owned[fd]
+	rec.poke = "stale-handle"
+	rec.mu.Unlock()
+	defer func() { rec.mu.Lock(); rec.poke = ""; rec.mu.Unlock() }()
+	if owned {
+		return // still a descriptor of the framework (reported elsewhere as a leak)
+	}
+	var stranger = -1
+	if _, err := unix.FcntlInt(uintptr(fd), unix.F_GETFD, 0); err != nil {
+		// the number is free: a socket of the harness takes it
+		if s, err := syscall.Socket(syscall.AF_INET, syscall.SOCK_DGRAM|syscall.SOCK_CLOEXEC, 0); err == nil {
+			if s != fd {
+				if err := syscall.Dup3(s, fd, syscall.O_CLOEXEC); err == nil {
+					stranger = fd
+				}
+				syscall.Close(s)
+			} else {
+				stranger = fd
+			}
+		}
+	}
+	if d, err := ci.c.Dup(); err == nil {
+		rec.mu.Lock()
+		delete(rec.owned, d) // handed to the caller: the harness's to close
+		rec.mu.Unlock()
+		syscall.Close(d)
+	}
+	if stranger >= 0 {
+		before, _ := syscall.GetsockoptInt(stranger, syscall.SOL_SOCKET, syscall.SO_RCVBUF)
+		_ = ci.c.SetReadBuffer(before/2 + 12345)
+		after, _ := syscall.GetsockoptInt(stranger, syscall.SOL_SOCKET, syscall.SO_RCVBUF)
+		if after != before {
+			rec.Fail("fd-not-owned", "ext:setsockopt@stale-handle", fmt.Sprintf("SetReadBuffer on the handle of a closed connection changed SO_RCVBUF of descriptor %d, a socket opened by somebody else after the close (%d -> %d)", stranger, before, after))
+		}
+		syscall.Close(stranger)
+	}
 }
 
 // udpPeer lets the harness's UDP server socket play the peer of one connected client socket
